@@ -6,6 +6,21 @@ IDENTS = ['Red', 'Blue', 'Green', 'Yellow', 'Purple', 'Orange', 'Black', 'White'
 GONE = ['GoneA', 'GoneB', 'GoneC']
 TYPES = ['u8', 'i32', 'bool', 'usize', 'Tag', '()']
 
+def add_noise(progs):
+    """Attributes that the derive under test must ignore, placed so that `disabled` shares an attribute list with them (after them in the
+    joined layout) and is spread over several attributes in the split layouts."""
+    for k, p in enumerate(progs):
+        if k % 2 == 0:
+            continue
+        for i, v in enumerate(p.variants):
+            if v.disabled or (i + k) % 3 == 0:
+                if not v.serialize and v.to_string is None:
+                    v.serialize = ['n-%s' % v.ident.lower()]
+                if v.message is None and (i + k) % 2 == 0:
+                    v.message = 'noise'
+        p.attr_layout = ['joined', 'split', 'split_rev', 'joined'][(k // 2) % 4]
+    return progs
+
 class Namer:
     def __init__(self, start=1):
         self.k = start
@@ -84,7 +99,7 @@ def corpus_iter(tier, seed, derives=('EnumIter', 'EnumCount')):
         v.serialize = [v.ident.lower()]
     out[-1].attr_layout = 'split'
     if tier == 'quick':
-        return out
+        return add_noise(out)
     # every placement of 0..2 disabled variants for N <= 4, alternating kinds
     k = 0
     for n in range(0, 5):
@@ -103,7 +118,7 @@ def corpus_iter(tier, seed, derives=('EnumIter', 'EnumCount')):
         pos = tuple(sorted(rnd.sample(range(n + nd), nd)))
         A(n, pos, kinds=rnd.choice(['unit', 'mixed', 'tuple', 'named']), generic=rnd.random() < 0.4,
           const_generic=rnd.random() < 0.2, k0=rnd.randint(0, 50))
-    return out
+    return add_noise(out)
 
 
 # ---------------------------------------------------------------------------------------
@@ -219,7 +234,7 @@ def corpus_repr(tier, seed):
     A('i8', 'hard2', 'none', n=4)
     A(None, 'hard', 'last', n=4)
     if tier == 'quick':
-        return out
+        return add_noise(out)
     pats = ['implicit', 'explicit', 'negative', 'expression', 'gapped', 'descending', 'extreme', 'hard', 'hard2']
     k = 0
     for r in REPRS:
@@ -233,7 +248,7 @@ def corpus_repr(tier, seed):
     for _ in range(16):
         A(rnd.choice(REPRS), rnd.choice(pats), rnd.choice(DISABLED_PLACEMENTS), n=rnd.randint(3, 8), payload=rnd.random() < 0.4,
           generic=rnd.random() < 0.3, k0=rnd.randint(0, 40))
-    return out
+    return add_noise(out)
 
 
 # ---------------------------------------------------------------------------------------
@@ -271,7 +286,7 @@ def corpus_table(tier, seed):
     A(5, (1, 2), k0=3)
     A(6, (), k0=0)
     if tier == 'quick':
-        return out
+        return add_noise(out)
     k = 0
     for n in range(1, 7):
         for nd in range(0, 3):
@@ -286,7 +301,7 @@ def corpus_table(tier, seed):
         n = rnd.randint(1, 8)
         nd = rnd.randint(0, 3)
         A(n, tuple(sorted(rnd.sample(range(n + nd), nd))), k0=rnd.randint(0, 7))
-    return out
+    return add_noise(out)
 
 
 # ---------------------------------------------------------------------------------------
@@ -531,13 +546,16 @@ def corpus_disc(tier, seed):
     p.tags.append('restricted_vis')
     p = A([V('A'), V('B'), V('C'), V('D')], repr='u16')
     p.variants[0].disc, p.variants[2].disc = '500', '2'
+    # the enum itself is not `pub`: IntoDiscriminant is still implemented unless vis(..) says otherwise
+    A([V('Inner'), V('Data', 'tuple', ['u8'])]).vis = 'pub(crate)'
+    A([V('Priv'), V('Two')]).vis = ''
     # expressions with operators Verus' const evaluation does not take: decided by the Kani twin
     p = A([V('Read'), V('Write'), V('Exec', 'tuple', ['u8']), V('All')], repr='u8')
     p.variants[0].disc, p.variants[2].disc = '1 << 2', '0x10 | 3'
     p = A([V('Low'), V('Mid'), V('High'), V('Top'), V('Gone', disabled=True), V('Last')], repr='i16')
     p.variants[0].disc, p.variants[2].disc, p.variants[4].disc = '-2', '1 << 4', '100 / 3'
     if tier == 'quick':
-        return out
+        return add_noise(out)
     rnd = random.Random(seed * 31 + 9)
     idents = ['Red', 'Blue', 'Green', 'Yellow', 'Teal', 'Pink', 'Gray']
     for k in range(40):
@@ -559,7 +577,7 @@ def corpus_disc(tier, seed):
         if k % 7 == 3:
             p.disc_attrs = ['name(%sTag)' % p.name, 'derive(Hash)']
             p.disc_name = p.name + 'Tag'
-    return out
+    return add_noise(out)
 
 # ---------------------------------------------------------------------------------------
 # C13 EnumIs / EnumTryAs
@@ -582,7 +600,7 @@ def corpus_is(tier, seed):
     A([V('Up'), V('Down', disabled=True), V('Side', 'tuple', ['u8'], disabled=True)])
     A([V('GoneFirst', disabled=True), V('V4l2', 'tuple', ['u8', 'bool'])])
     if tier == 'quick':
-        return out
+        return add_noise(out)
     for k in range(30):
         n = 1 + k % 6
         vs = []
@@ -592,12 +610,12 @@ def corpus_is(tier, seed):
             tys = {'unit': [], 'tuple': [['u8', 'i32', 'bool', 'usize', 'T', 'Tag'][(k + i + j) % 6] for j in range(nf)], 'named': [TYPES[(k + i) % 4]]}[kind]
             vs.append(V(IS_IDENTS[(i + k) % len(IS_IDENTS)], kind, tys, disabled=((k + i) % 7 == 5)))
         A(vs)
-    return out
+    return add_noise(out)
 
 # ---------------------------------------------------------------------------------------
 # C14 EnumMessage / C15 EnumProperty
 
-DOCS = [[], [' doc one'], ['  two spaces', ' second'], ['\tTabbed line'], ['\u00a0nbsp first', '\tthen tab', ' then space'], ['no leading space', '', ' after an empty line'], [' quote " backslash \\ brace {x}', ' \u00fcnicode', ' third', '    indented']]
+DOCS = [[], [' doc one'], [''], [' '], ['  two spaces', ' second'], ['\tTabbed line'], ['\u00a0nbsp first', '\tthen tab', ' then space'], ['no leading space', '', ' after an empty line'], [' quote " backslash \\ brace {x}', ' \u00fcnicode', ' third', '    indented']]
 
 def corpus_msg(tier, seed):
     nm = Namer()
@@ -614,8 +632,9 @@ def corpus_msg(tier, seed):
     A([M(V('G', 'tuple', ['T']), 'generic', None, DOCS[1]), M(V('H'))])
     A([M(V('GoneA', disabled=True), 'x'), M(V('GoneB', disabled=True))])
     # detailed_message written before message, attributes split; doc lines starting with a tab / NBSP keep it
-    A([M(V('First'), 'plain', 'detailed', DOCS[3]), M(V('Second', 'tuple', ['u8']), 'only plain', None, DOCS[4]), M(V('Third'), None, 'only detailed')]).attr_layout = 'split_rev'
-    A([M(V('First'), 'plain', 'detailed', DOCS[4]), M(V('Second'), 'p2', 'd2')]).attr_layout = 'split'
+    A([M(V('First'), 'plain', 'detailed', DOCS[5]), M(V('Second', 'tuple', ['u8']), 'only plain', None, DOCS[6]), M(V('Third'), None, 'only detailed')]).attr_layout = 'split_rev'
+    A([M(V('First'), 'plain', 'detailed', DOCS[6]), M(V('Second'), 'p2', 'd2')]).attr_layout = 'split'
+    A([M(V('EmptyDoc'), None, None, DOCS[2]), M(V('SpaceDoc'), 'm', None, DOCS[3]), M(V('GoneDetailed', disabled=True), None, 'explicit detailed on a disabled variant', DOCS[2])])
     if tier == 'quick':
         return out
     styles = [None, 'kebab-case', 'SCREAMING_SNAKE_CASE', 'camelCase', 'title_case']
